@@ -21,6 +21,7 @@ from concurrent.futures import ThreadPoolExecutor
 ROOT = os.path.dirname(os.path.dirname(os.path.abspath(__file__)))
 REPO = os.environ.get('VERIF_REPO', '/repo')
 PY = os.path.join(ROOT, '.venv', 'bin', 'python')
+OUT = os.environ.get('VERIF_OUT', ROOT)
 
 
 def _gen_module(prop, shards):
@@ -101,7 +102,7 @@ def run(prop, tier, timeout=None, workers=16):
             continue
         argtxt = r['cex'][1]
         label = r['function']
-        d = os.path.join(ROOT, 'replays', prop)
+        d = os.path.join(OUT, 'replays', prop)
         os.makedirs(d, exist_ok=True)
         path = os.path.join(d, f"crosshair-{r['shard']}.py")
         with open(path, 'w') as fh:
